@@ -44,7 +44,17 @@ func c03Read(b []byte) (out *bundle.Bundle, err error, pan string) {
 			pan = fmt.Sprint(r)
 		}
 	}()
-	out, err = bundle.Read(bytes.NewReader(b))
+	// the bytes are handed over in a *bytes.Buffer whose storage is overwritten right after the call (a
+	// caller recycling its scratch buffer): what Read returned must not live in the caller's memory
+	store := append([]byte{}, b...)
+	buf := bytes.NewBuffer(store)
+	defer func() {
+		buf.Reset()
+		for i := range store {
+			store[i] = 0xEE
+		}
+	}()
+	out, err = bundle.Read(buf)
 	return
 }
 
